@@ -41,7 +41,9 @@ def gmd_summary(ctx: Ctx, it: Interp):
     """Shape summary of util.misc.gmd read from its own allocations (Q = U.copy(), R = zeros([m, n]), P = V_H^H)."""
     g = ctx.model.func(MISC, 'gmd')
     rets = [n for n in walk_no_nested(g.node) if isinstance(n, ast.Return) and isinstance(n.value, ast.Tuple)]
-    if len(rets) != 1 or not all(isinstance(e, ast.Name) for e in rets[0].value.elts):
+    # several returns are fine when they all return the same tuple of locals (an early return of a trivial case)
+    if not rets or len({norm(r.value) for r in rets}) != 1 or not all(isinstance(e, ast.Name) for e in rets[0].value.elts) \
+            or any(isinstance(n, ast.Return) and not isinstance(n.value, ast.Tuple) for n in walk_no_nested(g.node)):
         ctx.error('C04: gmd no longer returns a tuple of locals (summary cannot be inferred)')
     names = [e.id for e in rets[0].value.elts]
 
